@@ -15,7 +15,7 @@ RULE = ("Algorithm L consumes continuous uniforms, so this property is decided s
         "compared cell by cell with 1/C(n,k) (exact two-sided binomial tail, Bonferroni over the cells, alarm only if p < 1e-9 AND an "
         "independent confirmation run with 4N executions gives p < 1e-6); n = k is asserted deterministically (everything retained); store_targets alternates between the pairs (the law must not depend on it) and with store_targets the observations are EQUAL-valued dicts identified by their targets; "
         "for larger pairs (5,40), (10,100), (100,300 = the explainers' default size) and Hypothesis-drawn pairs (k<=12, n<=k+40) the "
-        "per-arrival inclusion counts are compared with k/n; LONG streams (k=1, n=30000; k=2, n=25000 - beyond 1e4*k, where numerical guards on the weight would bite) are tested per decile of the stream. N = 4e4 per pair (quick), 2e6 spread over 16 workers (thorough). "
+        "per-arrival inclusion counts are compared with k/n (one pair with another seeded library object constructed next to the reservoir in every run); BLOCKS: the documented default size (UniformReservoirStorage(), 1000 slots) on 6000 arrivals (thorough: 40000; k=100 on 3e6; k=300 on 9000) - well over 1024 replacements per run - with the retained count per sixth of the stream bounded by Hoeffding's inequality for sampling without replacement (rigorous, delta 1e-9); LONG streams (k=1, n=30000; k=2, n=25000 - beyond 1e4*k, where numerical guards on the weight would bite) are tested per decile of the stream. N = 4e4 per pair (quick), 2e6 spread over 16 workers (thorough). "
         "Non-trivial: n >= k+2 (at least two skip computations); distinct = distinct (k, n, retained subset) outcomes observed.")
 ASSUMPTIONS = ["CPython's Mersenne Twister stream, consumed sequentially from one seed derived from VERIF_SEED, yields independent runs",
                "deviations below the reported minimal detectable effect pass"]
@@ -62,13 +62,18 @@ def subset_check(ctx, k, n, N, seen):
     return ok, info
 
 
-def inclusion_check(ctx, k, n, N, seen):
+def inclusion_check(ctx, k, n, N, seen, neighbour=False):
+    """neighbour: every run also constructs ANOTHER library object with a seed of its own next to the reservoir (a TreeStorage with an
+    explicit tree seed): the reservoir's draws remain those of the global generator, whoever else lives in the program."""
     probs = {t: k / n for t in range(1, n + 1)}
 
     def sample(m, stage):
         random.seed(ctx.seed_for(f'c08:incl:{k}:{n}:{stage}'))
         counts = {}
         for _ in range(m):
+            if neighbour:
+                from ixai.storage import TreeStorage
+                TreeStorage(cat_feature_names=['c'], num_feature_names=['a'], seed=42)
             r = one_run(k, n)
             for t in r:
                 counts[t] = counts.get(t, 0) + 1
@@ -111,6 +116,43 @@ def long_check(ctx, k, n, N, seen):
     return ok, info
 
 
+def block_check(ctx, k, n, R, seen, blocks=6):
+    """The documented DEFAULT size (UniformReservoirStorage() = 1000 slots; k is only used to cross-check it) and other large k on
+    streams long enough for well over a thousand replacements per run (k ln(n/k) >> 1000): the number of retained arrivals per
+    block of the stream, summed over R runs, is a sum of R*k draws without replacement; Hoeffding's inequality (valid without
+    replacement) bounds its deviation from R*k*|block|/n rigorously: P(|S - E| >= t) <= 2 exp(-2 t^2 / (R k))."""
+    from ixai.storage import UniformReservoirStorage
+    edges = [round(j * n / blocks) for j in range(blocks + 1)]
+    totals = [0] * blocks
+    random.seed(ctx.seed_for(f'c08:block:{k}:{n}'))
+    for r in range(R):
+        s = UniformReservoirStorage() if k == 1000 else UniformReservoirStorage(size=k)
+        upd = s.update
+        for i in range(n):
+            upd(i)
+        kept = list(s.get_data()[0])
+        if len(kept) != k or len(set(kept)) != k:
+            return False, {'cell': 'size', 'observed': len(set(kept)), 'expected': k, 'bound': 0}
+        for t in kept:
+            j = 0
+            while t >= edges[j + 1]:
+                j += 1
+            totals[j] += 1
+        if len(seen) < 200000:
+            seen.add((k, n, tuple(sorted(kept)[:12])))
+    ctx.count(R, label=f'runs:k={k},n={n}')
+    delta = stats.DELTA1 / blocks
+    t_bound = math.sqrt(R * k * math.log(2.0 / delta) / 2.0)
+    info = {'N': R, 'cells': blocks, 'bound_abs': t_bound, 'min_detectable_abs_dev': t_bound / (R * k)}
+    for j in range(blocks):
+        exp = R * k * (edges[j + 1] - edges[j]) / n
+        if abs(totals[j] - exp) > t_bound:
+            info.update(cell=f'block {j} (arrivals {edges[j]}..{edges[j + 1] - 1})', observed=totals[j] / (R * k), expected=exp / (R * k),
+                        stage1_p=delta, stage2_p=delta)
+            return False, info
+    return True, info
+
+
 def run_pair(case, ctx=None):
     """Replay entry: one (k, n) pair with the subset histogram (small) or inclusion counts (large)."""
     from ..core import Ctx
@@ -125,6 +167,10 @@ def run_pair(case, ctx=None):
         ok, info = subset_check(ctx, k, n, N, seen)
     elif case['kind'] == 'long':
         ok, info = long_check(ctx, k, n, N, seen)
+    elif case['kind'] == 'block':
+        ok, info = block_check(ctx, k, n, N, seen)
+    elif case['kind'] == 'inclusion+neighbour':
+        ok, info = inclusion_check(ctx, k, n, N, seen, neighbour=True)
     else:
         ok, info = inclusion_check(ctx, k, n, N, seen)
     if not ok:
@@ -148,7 +194,10 @@ def run(ctx):
     seen = set()
     N = 40000 if not ctx.thorough() else 125000
     pairs = [(k, n, 'subset') for k in (1, 2, 3) for n in range(k, k + 7)]
-    big = [(5, 40, 'inclusion'), (10, 100, 'inclusion'), (100, 300, 'inclusion'), (1, 30000, 'long'), (2, 25000, 'long')]
+    big = [(5, 40, 'inclusion'), (10, 100, 'inclusion'), (100, 300, 'inclusion'), (1, 30000, 'long'), (2, 25000, 'long'),
+           (3, 12, 'inclusion+neighbour'), (1000, 6000, 'block')]
+    if ctx.thorough():
+        big += [(1000, 40000, 'block'), (100, 3000000, 'block'), (300, 9000, 'block')]
     # Hypothesis-drawn additional pairs (deterministic in the seed)
     from hypothesis import given, settings, seed, Phase, HealthCheck
     drawn = []
@@ -178,6 +227,12 @@ def run(ctx):
         if kind == 'long':
             n_runs = 700 if not ctx.thorough() else 6000
             ok, info = long_check(ctx, k, n, n_runs, seen)
+        elif kind == 'block':
+            n_runs = (6 if not ctx.thorough() else 40) if n < 10 ** 6 else 3
+            ok, info = block_check(ctx, k, n, n_runs, seen)
+        elif kind == 'inclusion+neighbour':
+            n_runs = max(N // 8, 5000)
+            ok, info = inclusion_check(ctx, k, n, n_runs, seen, neighbour=True)
         elif kind == 'subset':
             ok, info = subset_check(ctx, k, n, n_runs, seen)
         else:
